@@ -45,6 +45,10 @@ def exec_stream(tier, rng, P, only=None, cases=None):
         for i in range(n // 2):
             # printed programs of the core-language generator: tracks, channels, chords, tuplets, Sub, loops (others are skipped as unsupported)
             texts.append(mml.pr(mml.gen_cmds(rng, 2, rng.randrange(1, 9), top=(rng.random() < 0.5))))
+        # gate sweep: every (length in ticks, gate rate) pair of a dense grid — the sounding length is the truncated exact product
+        # len*q/100 (an almost-equal rounding of the binary32 arithmetic shows on a few dozen pairs of this grid only)
+        for q in range(1, 151 if big else 101):
+            texts.append("q%d " % q + " ".join("c%%%d" % L for L in range(1, 1201 if big else 501)))
         for i, t in enumerate(texts):
             cs.append(dict(req="lexrun " + hx(t), src=t, show=repr(t)[:300], key="e%d" % i))
         return cs
